@@ -71,10 +71,10 @@ def run(ctx):
         for name, ref in drefs.items():
             r, f = call(name)
             ctx.equiv("R01.3", f"{cname}.{name}", r, ref, f.loc(), norm=norm_sel, interp=it)
-        for name in ("m0", "hm0", "tm01", "tm02"):
+        for name in ("m0", "m1", "m2", "hm0", "tm01", "tm02"):
             r, f = call(name)
-            ref = {"m0": M(0, Z, OO), "hm0": 4 * sp.sqrt(M(0, Z, OO)), "tm01": M(0, Z, OO) / M(1, Z, OO),
-                   "tm02": sp.sqrt(M(0, Z, OO) / M(2, Z, OO))}[name]
+            ref = {"m0": M(0, Z, OO), "m1": M(1, Z, OO), "m2": M(2, Z, OO), "hm0": 4 * sp.sqrt(M(0, Z, OO)),
+                   "tm01": M(0, Z, OO) / M(1, Z, OO), "tm02": sp.sqrt(M(0, Z, OO) / M(2, Z, OO))}[name]
             ctx.equiv("R01.3", f"{cname}.{name}[default band]", r, ref, f.loc(), norm=norm_sel, interp=it)
 
         envres.check_ext_used(ctx, it, "R01.4", cname)
@@ -82,4 +82,4 @@ def run(ctx):
         if it.unknown_notes:
             ctx.notes.extend(it.unknown_notes[:10])
     ctx.require_count("R01.1", 4)
-    ctx.require_count("R01.3", 26)
+    ctx.require_count("R01.3", 30)
